@@ -285,6 +285,15 @@ class Opaque:
 
     def __init__(self, what="opaque"):
         self.what = what
+        self.fields = {}
+
+    def getattr(self, ip, name, lineno):
+        if name not in self.fields:
+            self.fields[name] = ip.ctx.fresh_int("opaque_" + name)
+        return self.fields[name]
+
+    def setattr(self, name, v):
+        self.fields[name] = v
 
     def __repr__(self):
         return "<opaque %s>" % self.what
